@@ -151,7 +151,7 @@ func sliceParamEffects(p *an.Prog, fn *ssa.Function, idx int, depth int) (muts [
 func checkC11(c *an.Ctx) {
 	c.Rule("C11.1", "tee (E5): TaskOutput.Stdout() is a MultiWriter over the decorator and &Task.Log.Stdout (Stderr: &Task.Log.Stderr); Run hands exactly these to CompileTask; no writer on the way modifies or retains the caller's buffer")
 	c.Rule("C11.2", "store after success (E3): the output store is executed only when every command ran (err==nil of the job walk) and before Run returns")
-	c.Rule("C11.3", "visibility (E5): Run builds every task's env starting from TaskRunner.env, the container the store writes")
+	c.Rule("C11.3", "visibility (E5): Run builds every task's env starting from TaskRunner.env, the container the store writes; nothing is deleted from a command's environment map before the interpreter gets it")
 	c.Rule("C11.4", "name (E5): with an empty ExportAs the key is ReplaceAllString([^a-zA-Z0-9_] → _) of ToUpper(Task.Name)+\"_OUTPUT\"; otherwise it is Task.ExportAs unchanged; the value is Task.Log.Stdout; outside pkg/task and internal/config nothing rewrites ExportAs or Name of a configured task or of its per-stage copy (the names the output is published under are the configured ones)")
 	c.Rule("C11.5", ".Output (E3/E5): before each Execute the variable Output is set from a loop-carried value that every back edge refreshes with that iteration's Execute result; Execute returns the buffer suffix starting at the length recorded before the interpreter ran")
 	c.Rule("C11.6", "the capture is only appended to and read whole (who-may-touch, module-wide + E2): apart from the tee, every use of &Task.Log.Stdout is a non-consuming read (String, Len, Bytes, Cap); anything that consumes, truncates, resets or writes it (Read*, Next, WriteTo, Reset, Truncate, Write*, handing it out as an io.Reader or a *bytes.Buffer) is unreachable while Task.Errored is false")
@@ -164,6 +164,8 @@ func checkC11(c *an.Ctx) {
 	}
 	c.OK("C11.0", "runner roles", r.run.Pos(), "store=%s", an.Short(r.store))
 
+	hooksNotCaptured(c, "C11.1")
+	noEnvRemoval(c, "C11.3")
 	taskPolicyUntouched(c, "C11.4", "ExportAs", "Name")
 	// C11.1
 	for _, w := range []struct{ method, field string }{{"Stdout", "Stdout"}, {"Stderr", "Stderr"}} {
@@ -566,7 +568,8 @@ func storeName(c *an.Ctx, r *runnerRoles, rule string) {
 				if !ok {
 					continue
 				}
-				if g := call.Call.StaticCallee(); g != nil && g.Blocks != nil && an.Outer(g).Pkg == f.Pkg && !keyFns[g] {
+				// (the name may be computed by a function of another package of the module: a method of the task)
+				if g := call.Call.StaticCallee(); g != nil && g.Blocks != nil && an.InModule(g) && !keyFns[g] {
 					keyFns[g] = true
 					for _, ret := range an.Returns(g) {
 						for i := range ret.Results {
@@ -1243,4 +1246,51 @@ func teeStruct(al *ssa.Alloc) ([]ssa.Value, bool) {
 		}
 	}
 	return vals, true
+}
+
+// hooksNotCaptured: the capture holds what the task's own commands print. A before or after command compiled with
+// the tee (TaskOutput.Stdout/Stderr) as its output writes into Task.Log as well, and what it prints is published
+// under the task's output name in front of (or behind) the task's own output.
+func hooksNotCaptured(c *an.Ctx, rule string) {
+	p := c.P
+	ccr := resolveCmdCompiler(p)
+	n, bad := 0, 0
+	for _, fn := range p.Funcs {
+		if !inPkgs("pkg/runner")(fn) || fn.Blocks == nil {
+			continue
+		}
+		an.EachInstr(fn, func(in ssa.Instruction) {
+			call, ok := ccr.asCall(in)
+			if !ok || len(call.Call.Args) < 2 {
+				return
+			}
+			kind := ""
+			for _, a := range call.Call.Args {
+				if k := commandKind(a, nil); k == "before" || k == "after" {
+					kind = k
+				}
+			}
+			if kind == "" {
+				return
+			}
+			n++
+			for _, a := range call.Call.Args {
+				if !an.TypeIs(a.Type(), "io", "Writer") {
+					continue
+				}
+				for _, src := range p.DeepSources(a, 3, true) {
+					if oc, ok := src.(*ssa.Call); ok {
+						name := an.ShortCallee(&oc.Call)
+						if name == "(pkg/output.TaskOutput).Stdout" || name == "(pkg/output.TaskOutput).Stderr" {
+							bad++
+							c.Bad(rule, an.Short(fn)+":"+kind+"-hook-output", call.Pos(), "the %s commands of a task are compiled with %s, the tee into Task.Log, as their output: what a hook prints becomes part of the task's captured output and of what is published under its name", kind, name)
+						}
+					}
+				}
+			}
+		})
+	}
+	if bad == 0 {
+		c.OK(rule, "runner:hook-output", token.NoPos, "no before/after command is compiled with the capture tee as its output (%d hook compilations)", n)
+	}
 }
